@@ -77,11 +77,13 @@ def write_if_changed(path, text):
 	return False
 
 
-def static_scan():
+def static_scan(only=None):
 	"""forbidden vernacular anywhere in the hand-written development (Section variables are allowed
 	only inside Sections: checked structurally below)"""
 	problems = []
-	for rel in coq_sources():
+	for rel in (only if only is not None else coq_sources()):
+		if rel.startswith('Gen/') or not os.path.exists(os.path.join(COQ, rel)):
+			continue
 		depth = 0
 		with open(os.path.join(COQ, rel)) as fd:
 			text = fd.read()
@@ -101,10 +103,25 @@ def static_scan():
 	return problems
 
 
+def closure_of(rel):
+	"""transitive closure of the project-local .v dependencies of a .v file (via coqdep)"""
+	seen, todo = [], [rel]
+	while todo:
+		cur = todo.pop()
+		if cur in seen or not os.path.exists(os.path.join(COQ, cur)):
+			continue
+		seen.append(cur)
+		rc, out = sh('coqdep -R . Httoop %s' % cur, cwd=COQ, timeout=120)
+		m = re.search(r':\s*(.*)', out)
+		if m:
+			todo.extend(d[:-1] for d in m.group(1).split() if d.endswith('.vo'))
+	return seen
+
+
 def build(props_rel, tables, extra=()):
 	"""T1 + make of the property's closure + coqc of the Props file (always re-run, so that the
 	Print Assumptions output is fresh).  Returns dict(ok, log, assumptions, theorems, failed)."""
-	res = {'ok': True, 'log': '', 'assumptions': {}, 'theorems': [], 'failed': None, 'tables': {}}
+	res = {'ok': True, 'log': '', 'assumptions': {}, 'theorems': [], 'failed': None, 'tables': {}, 'closure': [props_rel]}
 	with Lock():
 		t = gen_tables.generate(tables)
 		res['tables'] = t
@@ -121,12 +138,12 @@ def build(props_rel, tables, extra=()):
 				res.update(ok=False, failed='coq_makefile', log=out)
 				return res
 		# dependencies of the Props file (everything but itself), then the Props file with output captured
-		rc, out = sh('coqdep -R . Httoop %s' % props_rel, cwd=COQ, timeout=120)
-		deps = []
-		m = re.search(r':\s*(.*)', out)
-		if m:
-			deps = [d for d in m.group(1).split() if d.endswith('.vo')]
-		deps = list(deps) + [e for e in extra if e]
+		clos = closure_of(props_rel)
+		for e in extra:
+			if e:
+				clos += [c for c in closure_of(e[:-1]) if c not in clos]
+		res['closure'] = sorted(clos)
+		deps = [c + 'o' for c in clos if c != props_rel]
 		if deps:
 			rc, out = sh('timeout %d make -j%d %s' % (COQC_TIMEOUT * 2, NPROC, ' '.join(deps)), cwd=COQ)
 			res['log'] += out[-6000:]
@@ -244,7 +261,7 @@ def run(spec, tier, seed, replay=None):
 
 	# 1. T1 + proofs
 	b = build(spec.PROPS, getattr(spec, 'TABLES', None), [getattr(spec, 'CORR_VO', None)])
-	scan = static_scan()
+	scan = static_scan(b['closure'])
 	if scan:
 		b['ok'] = False
 		b['failed'] = (b['failed'] + '; ' if b['failed'] else '') + 'forbidden vernacular: ' + '; '.join(scan[:5])
